@@ -52,6 +52,14 @@ Example C01_copy_back_is_needed :
   fcall_ok f = false /\ caller_sees f (fun _ => 1) (fun _ => 0) "flag" = 0.
 Proof. exact copy_back_is_needed. Qed.
 
+(* a character dummy handed to C as its own (blank padded, not terminated) storage always travels with a length parameter *)
+Theorem C01_direct_character_has_a_length : forall f p r,
+  fcall_ok f = true -> In (p, (FDirect, r)) (combine (fc_params f) (fc_args f)) ->
+  kind_of p (fc_kinds f) = DChar -> mem p (fc_dummies f) = true ->
+  has_length (fc_args f) p = true.
+Proof. exact direct_character_has_a_length. Qed.
+Print Assumptions C01_direct_character_has_a_length.
+
 (* non-vacuity *)
 Definition ex_f : fcall :=
   {| fc_name := "fn0>c_fn0_bufferify"; fc_dummies := ["a0"; "a1"; "a3"; "a4"]; fc_kinds := [("a0", DObj); ("a1", DNum); ("a3", DChar); ("a4", DArr)];
